@@ -216,6 +216,91 @@ def rodir_stage(ctx, res, scen, tier, seed, scratch):
             res.verdicts["held"] += 1
 
 
+def cli_stage(ctx, res, scen, tier, seed, scratch):
+    """The tool's `mpq create` is a build as well: one that fails (an input that is not there, two inputs under one archive
+    name, an input that is a directory) leaves whatever stood under the destination name as it was - a valid archive, a
+    damaged one, a file that is no archive at all - and creates nothing when there was nothing."""
+    cli = sup.build_cli()
+    base = os.path.join(scratch, "cli")
+    os.makedirs(base, exist_ok=True)
+    oldarc = next((scen[n]["old"] for n in ("build-v1-present-small", "build-v2-present-small") if n in scen and scen[n].get("old")), None)
+    if not oldarc:
+        res.add_inconclusive("cli-stage-no-previous-archive")
+        return
+    rnd = __import__("random").Random(f"c12-cli-{seed}")
+    prev_kinds = {
+        "valid-archive": open(oldarc, "rb").read(),
+        "damaged-archive": b"\0" * 512 + open(oldarc, "rb").read()[512:],
+        "not-an-archive": ("notes kept under this name\n" * 40).encode(),
+        "empty-file": b"",
+        "absent": None,
+    }
+    jobs = []
+    for pk in prev_kinds:
+        for fail in ("missing-input", "same-name-twice", "directory-input"):
+            for version in (("v1", "v4") if tier == "thorough" else ("v2",)):
+                jobs.append((pk, fail, version))
+
+    def one(job):
+        pk, fail, version = job
+        d = os.path.join(base, f"{pk}-{fail}-{version}")
+        shutil.rmtree(d, ignore_errors=True)
+        os.makedirs(os.path.join(d, "in", "a"))
+        os.makedirs(os.path.join(d, "in", "b"))
+        for sub, nm in (("a", "one.txt"), ("a", "two.bin"), ("b", "one.txt")):
+            with open(os.path.join(d, "in", sub, nm), "wb") as fh:
+                fh.write(rnd.randbytes(300 + rnd.randrange(2000)))
+        dest = os.path.join(d, "dest.mpq")
+        if prev_kinds[pk] is not None:
+            with open(dest, "wb") as fh:
+                fh.write(prev_kinds[pk])
+        before = sha256(dest) if os.path.exists(dest) else None
+        adds = {"missing-input": [os.path.join(d, "in", "a", "one.txt"), os.path.join(d, "in", "a", "nowhere.bin"), os.path.join(d, "in", "a", "two.bin")],
+                "same-name-twice": [os.path.join(d, "in", "a", "one.txt"), os.path.join(d, "in", "a", "two.bin"), os.path.join(d, "in", "b", "one.txt")],
+                "directory-input": [os.path.join(d, "in", "a", "two.bin"), os.path.join(d, "in", "b")]}[fail]
+        cmd = [cli, "mpq", "create", dest, "--version", version, "--with-listfile"]
+        for a in adds:
+            cmd += ["--add", a]
+        try:
+            p = subprocess.run(cmd, cwd=d, env=dict(ctx.env, RUST_LOG="off"), stdout=subprocess.PIPE, stderr=subprocess.PIPE, text=True, errors="replace", timeout=120)
+        except subprocess.TimeoutExpired:
+            return {"job": job, "inconc": "timeout"}
+        after = sha256(dest) if os.path.exists(dest) else None
+        left = sorted(x for x in os.listdir(d) if x not in ("dest.mpq", "in"))
+        out = {"job": list(job), "rc": p.returncode, "before": before, "after": after, "leftovers": left, "stderr": p.stderr[-300:]}
+        if p.returncode == 0 and after is not None and after != before:
+            q = subprocess.run([cli, "mpq", "list", dest], cwd=d, env=dict(ctx.env, RUST_LOG="off"), stdout=subprocess.PIPE, stderr=subprocess.PIPE, text=True, errors="replace", timeout=120)
+            out["lists"] = q.returncode == 0
+        shutil.rmtree(d, ignore_errors=True)
+        return out
+
+    with ThreadPoolExecutor(max_workers=sup.NCPU) as ex:
+        outs = list(ex.map(one, jobs))
+    for r in outs:
+        res.cases += 1
+        if r.get("inconc"):
+            res.add_inconclusive("cli-create-" + r["inconc"])
+            continue
+        pk, fail, version = r["job"]
+        res.add_counter("cli_create_runs", 1)
+        res.add_counter("cli_create_" + ("failed" if r["rc"] != 0 else "succeeded"), 1)
+        bad = None
+        if r["rc"] != 0 and r["after"] != r["before"]:
+            bad = ("failed-create-changed-destination", "gone" if r["after"] is None else "changed")
+        elif r["rc"] != 0 and r["leftovers"]:
+            bad = ("failed-create-left-files", str(r["leftovers"]))
+        elif r["rc"] == 0 and (r["after"] is None or r["after"] == r["before"] or not r.get("lists", False)):
+            bad = ("create-exit0-without-archive", "no readable archive under the destination name")
+        res.classes.add(f"cli-create|{pk}|{fail}|{version}")
+        if bad:
+            res.verdicts["viol"] += 1
+            res.add_violation(f"cli-create|{bad[0]}|previous={pk}",
+                              f"`mpq create` ({fail}, {version}) over a destination that held: {pk}; exit {r['rc']}; destination afterwards {bad[1]}; stderr: {r['stderr'][-160:]}",
+                              r, {"property": PROP, "tier": tier, "seed": int(seed), "scenario": "cli-create", "point": {"kind": "cli"}})
+        else:
+            res.verdicts["held"] += 1
+
+
 def all_scenarios():
     out = []
     for v in (1, 2, 3, 4):
@@ -753,6 +838,7 @@ def run(tier, seed, scratch, t0):
             v["points_fired"] = fired_by_sc.get(n, 0)
     concurrent_stage(ctx, res, tier, seed, scratch)
     rodir_stage(ctx, res, scen, tier, seed, scratch)
+    cli_stage(ctx, res, scen, tier, seed, scratch)
     res.add_counter("scenarios_run", len(scen))
     res.add_counter("verify_processes_run", len(ctx.verify_cache))
     extra = {"scenarios": scen_ev, "set": SET, "modes": MODES + ["fsize-ign", "fsize-kill"] + [f"{a}+{b}" for a in ("ENOSPC", "EIO") for b in ("kill", "EIO")]}
@@ -816,11 +902,14 @@ def replay(rp, scratch):
     r = rp["replay"]
     binpath = sup.build("vh-mpq", "c12")
     ctx = Ctx(binpath, r["seed"], scratch, ffi_bin=sup.build("vh-ffi", "c12_ffi"))
-    if r.get("point", {}).get("kind") in ("concurrent", "rodir"):
+    if r.get("point", {}).get("kind") in ("concurrent", "rodir", "cli"):
         # these stages are re-run whole (interleavings are not replayable one by one; the unprivileged runs are few)
         res = sup.Result(PROP)
         if r["point"]["kind"] == "concurrent":
             concurrent_stage(ctx, res, r["tier"], r["seed"], scratch)
+        elif r["point"]["kind"] == "cli":
+            sc = prepare(ctx, "build-v1-present-small")
+            cli_stage(ctx, res, {} if sc.get("failed") else {"build-v1-present-small": sc}, r["tier"], r["seed"], scratch)
         else:
             scen = {}
             for n in ("build-v1-present-small", "build-v2-present-big", "build-v4-present-small", "build-v3-present-big"):
